@@ -42,4 +42,71 @@ def Balanced : Prog → Prop
   | .raise _ => True
   | .eq _ _ _ => True
 
+/-! ### The hypothesis under which the decorator *as coded* (1.11.2.0) is call-scoped
+
+`ctx = none` means "not inside any decorated call" (the private counter is 0); `ctx = some lt`
+means "inside an outermost decorated call whose validated verbosity is `lt`".  `g` is the global
+log level in force (it cannot change: the trees considered contain no log-level operation). -/
+
+/-- Is this `verbose` outside the three defect classes of the unpatched decorator?
+* it is valid (an invalid one leaks the nesting counter);
+* for an outermost call: not (global level DISABLE and `verbose` = 0/False/"DISABLE")
+  (that combination switches logging back on);
+* for a nested call: `None`, or the very verbosity of the outermost call (what cfdm's own
+  methods do: `verbose=verbose` is passed through) — any other nested verbosity is never undone. -/
+def vOK (ctx : Option (Option Level)) (g : Level) (v : Verbose) : Bool :=
+  match v.resolve with
+  | .error _ => false
+  | .ok lv =>
+    match ctx with
+    | none => decide (¬ (g = .DISABLE ∧ lv = some .DISABLE))
+    | some lt => decide (lv = none ∨ lv = lt)
+
+/-- The context in which the body of a call with this `verbose` runs. -/
+def innerCtx (ctx : Option (Option Level)) (v : Verbose) : Option Level :=
+  match ctx with
+  | some lt => lt
+  | none => match v.resolve with | .ok lv => lv | .error _ => none
+
+/-- Decidable guard: a tree of decorated calls (any depth), opaque cfdm functions, raises, try
+blocks, equality tests and tolerance settings / blocks (no log-level operation, as in `LogFree`)
+all of whose `verbose` arguments pass `vOK`. -/
+def guarded (g : Level) : Option (Option Level) → Prog → Bool
+  | _, .skip => true
+  | c, .seq p q => guarded g c p && guarded g c q
+  | _, .set op => !op.touchesLog
+  | _, .cfg cf => decide (cf.l = none)
+  | c, .withSet op body => decide (op.key ≠ .log) && guarded g c body
+  | _, .withCfg _ _ => false
+  | c, .call v body => vOK c g v && guarded g (some (innerCtx c v)) body
+  | c, .real v _ inner => vOK c g v && vOK (some (innerCtx c v)) g inner
+  | c, .try_ body => guarded g c body
+  | _, .raise _ => true
+  | _, .eq _ _ _ => true
+
+/-! ### Vocabulary of the statements about the decorator as coded -/
+
+/-- The logging state that a verbosity `l` in force dictates (`none`: nothing in force). -/
+def Absorb (lt : Option Level) (s : State) : Prop :=
+  match lt with
+  | none => True
+  | some l => (l = .DISABLE → s.disable = critical) ∧ (l ≠ .DISABLE → s.disable = 0 ∧ s.root = l.no)
+
+/-- What holds of the `decoOld` state at every point of a guarded run. -/
+def Inv (g : Level) (ctx : Option (Option Level)) (s : State) : Prop :=
+  s.level = g ∧
+  match ctx with
+  | none => s.calls = 0 ∧ Consistent s
+  | some lt => 1 ≤ s.calls ∧ Absorb lt s
+
+/-- Observational equality of a `decoOld` state and a `decoNew` state. -/
+def Rel (so sn : State) : Prop := settings so = settings sn ∧ obsLog so = obsLog sn
+
+/-- What a guarded piece of program guarantees about the `decoOld` state it leaves. -/
+def Post (ctx : Option (Option Level)) (so ro : State) : Prop :=
+  ro.calls = so.calls ∧ ro.level = so.level ∧
+  match ctx with
+  | none => Consistent ro
+  | some _ => ro.root = so.root ∧ ro.disable = so.disable
+
 end Cfdm.Settings
